@@ -21,7 +21,9 @@ open IPT IPT.AngleLemmas IPT.ExtLatLemmas
 section generic
 variable {α : Type} [Add α] [Sub α] [Mul α] [Div α] [Neg α] [OfScientific α] [Sc α]
 
-/-- the published tables, row by row (frozen snapshot IPT/Spec/Vsop.lean), for every scalar type -/
+/-- the regenerated tables equal the frozen snapshot IPT/Spec/Vsop.lean row by row, for every scalar
+    type (a pin against silent edits of a coefficient; that the snapshot is Meeus' truncated VSOP87
+    is part of the trusted base, cross-checked to 0.02° by the independent ephemeris) -/
 theorem tables_are_meeus :
     (Gen.L0 : List (α × α × α)) = Spec.L0 ∧ (Gen.L1 : List (α × α × α)) = Spec.L1 ∧
     (Gen.L2 : List (α × α × α)) = Spec.L2 ∧ (Gen.L3 : List (α × α × α)) = Spec.L3 ∧
